@@ -83,6 +83,13 @@ Fixpoint set_nth {A} (i : nat) (x : A) (l : list A) : list A :=
   | y :: r, S i' => y :: set_nth i' x r
   end.
 
+(* a.aliveEntries[index].sortingLatency = l : only the latency of the entry at that index is written *)
+Definition set_lat_nth (i : nat) (l : Z) (es : list (nat * Z)) : list (nat * Z) :=
+  match nth_error es i with
+  | Some e => set_nth i (fst e, l) es
+  | None => es
+  end.
+
 (* alive -> not alive: swap with the last element and pop *)
 Definition remove_at (a : aset) (d : nat) (i : nat) : aset :=
   let es := a_entries a in
@@ -135,7 +142,7 @@ Definition notify (c : cfg) (st : store) (t : ntype) (a : aset) (d : nat) (alive
       let bak_lat := a_best_lat a1 in
       let sorting := raw + c_off c d in
       let a2 := {| a_idx := a_idx a1; a_lat := updn (a_lat a1) d (Some raw);
-                   a_entries := match a_idx a1 d with SAt i => set_nth i (d, sorting) (a_entries a1) | _ => a_entries a1 end;
+                   a_entries := match a_idx a1 d with SAt i => set_lat_nth i sorting (a_entries a1) | _ => a_entries a1 end;
                    a_policy := a_policy a1; a_best := a_best a1; a_best_lat := a_best_lat a1 |} in
       let a3 :=
         if alive && (negb (is_some (a_best a2)) || tol_switch (c_tol c) sorting (a_best_lat a2)) then set_best a2 (Some d) sorting
